@@ -173,7 +173,16 @@ func c18Check(root string, doc []byte) (res fw.Result) {
 	// inverse property for paths inside package directories
 	cwd, _ := os.Getwd()
 	for d := range dirs {
-		for _, tail := range []string{"", "x", "x/y.tf", "./x/../z", "a b/c#d", "%41/ü", "deep/er/still/deeper.tf", "x/"} {
+		// the lookups are about names, not about what is on disk: links that
+		// exist below a package directory (to a sibling directory, out of the
+		// package, out of the bundle) do not change any answer
+		if os.MkdirAll(filepath.Join(d, "v2", "m"), 0755) == nil {
+			os.Symlink("v2", filepath.Join(d, "current"))
+			os.Symlink("../", filepath.Join(d, "up"))
+			os.Symlink("/", filepath.Join(d, "slash"))
+			os.WriteFile(filepath.Join(d, "v2", "m", "main.tf"), []byte("m"), 0644)
+		}
+		for _, tail := range []string{"", "x", "x/y.tf", "./x/../z", "a b/c#d", "%41/ü", "deep/er/still/deeper.tf", "x/", "current/m/main.tf", "current", "up/x.tf", "slash/etc/passwd", "v2/m/main.tf"} {
 			p := filepath.Join(d, tail)
 			if tail == "./x/../z" || tail == "x/" {
 				p = d + "/" + tail
